@@ -242,7 +242,7 @@ func checkFlatten(prop, tier string, seed int64) int {
 
 func checkFlattenOne(prop, tier string, seed int64) int {
 	rep := NewReport(prop, tier, seed)
-	rep.Rule = "bundles: seeded random generator over W (root + 0..3 auxiliary documents in nested directories, recursive/cross-file/colliding definitions, anonymous pointers, shared objects, full name alphabet) x every option set; " + flattenRule[prop] + "; distinct by (hash of the abstract bundle, option set)"
+	rep.Rule = "bundles: the directed corpus (corpus/flatten.txt) + a seeded sample of the TLC-enumerated scenario family (MC_FlattenScen: target kind x shape x holder kind x second holder x collision) + every name enumerated by MC_Keys planted in every role of four scenarios + a seeded random generator over W (root + 0..3 auxiliary documents in nested directories, recursive/cross-file/colliding definitions, anonymous pointers, shared objects, full name alphabet), each x every option set (incl. KeepNames for single documents, Expand+Minimal); " + flattenRule[prop] + "; distinct by (hash of the abstract bundle, option set); C01/C04 add the (base, ref) pairs of MC_Paths run through the real rebasing functions"
 	rep.Assumptions = []string{"projection JSON->tree and $ref parsing in the harness (round-trip self-checked)", "TLC, SANY, CommunityModules Json",
 		"membership in W is by construction of the generator", "go-openapi/spec (ExpandSpec, loader) is the environment"}
 	fc, err := cachedFlattenCampaign(tier, seed)
